@@ -19,15 +19,24 @@ CFG = dict(
          "month-free durations, months 1 2 3 4 6 12 (spec: first instant of the period) and 5 7 8 .. 120, zero / "
          "negative / mixed / oversized durations, instants before 1970 and outside the nanosecond range. "
          "non-trivial = distinct case descriptions not tagged nt=0",
-    theorem_hint="Props/C17.v: C17_add_sub_inverse, C17_diff_add_inverse, C17_td_*, C17_month_*, C17_time_*, C17_trunc_*",
-    level_text="Proof: 31 theorems (Props/C17.v, axiom-free, over Z) about the Gallina model of tea-time: "
-               "(x + d) - d = x and (x - d) + d = x for month-free d outside known-finding class 1 (with a witness that "
-               "the class fails), (a - b) + b = a, TimeDelta is an abelian group under + / neg with scaling "
-               "distributing (on non-overflowing values), month addition = calendar month arithmetic with end-of-"
-               "month clamping, Time constructors <-> getters, Time <-> NaiveTime round trip, Time +- d exact, "
-               "duration_trunc = greatest multiple of d not after x, month truncation for m | 12 = first instant "
-               "of the enclosing month / quarter / half-year / year. Calendar facts enter through the CalendarLaws "
-               "record (Section hypothesis), which Proofs/Calendar.v proves for the executable calendar.",
+    theorem_hint="Props/C17.v: C17_add_sub_inverse, C17_add_sub_class1_*, C17_diff_add_inverse, C17_td_*, C17_month_*, C17_time_*, C17_trunc_*, C17_days_of_civil_*, C17_month_trunc_*",
+    level_text="Proof: 41 theorems (Props/C17.v, axiom-free, over Z) about the Gallina model of tea-time: "
+               "(x + d) - d = x and (x - d) + d = x for month-free d outside known-finding class 1 (stated as "
+               "kf_subunit u d = false -> ..., with a witness that the class fails AND a proof that every member of "
+               "the class fails by exactly one unit: result = x - 1), (a - b) + b = a, TimeDelta is an abelian group "
+               "under + / neg with scaling distributing (on non-overflowing values), month addition = calendar month "
+               "arithmetic with end-of-month clamping, Time constructors <-> getters, Time <-> NaiveTime round trip, "
+               "Time +- d exact, duration_trunc = greatest multiple of d not after x (both inequalities; for d not a "
+               "whole number of units: y <= x < y + d + one unit), month truncation for m | 12 at all four units and "
+               "for pre-1970 / year <= 0 instants: the result is 00:00:00.0 on the first day of the enclosing month / "
+               "quarter / half-year / year, it is <= x, it is the GREATEST first-instant of a year-aligned m-month "
+               "period that is <= x, and x is before the first instant of the next period. These rest on new calendar "
+               "theorems: days_of_civil (Hinnant) is strictly monotone for the lexicographic order on valid dates of "
+               "every year and reflects it (order isomorphism), month lengths add up. Calendar facts enter through the "
+               "CalendarLaws record (Section hypothesis), which Proofs/Calendar.v proves for the executable calendar; "
+               "the order theorems are about the executable calendar directly. Nothing is partial; the unrestricted "
+               "inverse law stays a Definition because class 1 refutes it. Not proved (compared only): "
+               "TimeDelta / TimeDelta, Time::with_*.",
     level_note="Trusted: Coq kernel; the hand-written model of impl_ops.rs / time.rs / impl_time.rs / datetime.rs and of "
                "the chrono functions they delegate to (checked_add_months, checked_add_signed, Duration arithmetic "
                "and ranges, DurationRound::duration_trunc, NaiveTime), compared on every run. Known finding class 1 "
